@@ -14,6 +14,7 @@ from ..patterns import (Cmp, assigns_to, calls_in, check_no_arg_mutation,
 from ..spmd import SPMD, collective_name
 from .cluster_common import KC, KM, HY, CU, check_running_min_commit
 from .C15 import d_striped
+from ..match import C, CS
 
 OPS = 'enspara/mpi/ops.py'
 IO = 'enspara/mpi/io.py'
@@ -181,7 +182,7 @@ def d2_roots(ck):
                  'the rank filling the buffer (`%s`) must be the Bcast root `%s` and the frame sent must be data[world_index]' % (u(n.test), owner))
     ck.floor(rule, len(fills), 2, 'buffer-filling branches in distribute_frame')
     g = [n for n in fn.body if isinstance(n, ast.If) and any(isinstance(x, ast.Raise) for x in n.body)]
-    ck.check(bool(g) and u(g[0].test) == '%s >= mpi.size()' % owner, rule + '.range', mod, g[0] if g else fn, 'distribute_frame', u(g[0].test) if g else '?',
+    ck.check(bool(g) and u(g[0].test) == C('%s >= mpi.size()' % owner), rule + '.range', mod, g[0] if g else fn, 'distribute_frame', u(g[0].test) if g else '?',
              'an owner outside the world is rejected on every rank (uniform argument)', 'owner_rank >= mpi.size() must raise')
     # reassembly
     fa = mod.func('assemble_striped_array')
@@ -425,14 +426,14 @@ def d8_reductions(ck):
                  'only right when every rank holds the same number of elements' % (g, loc, loc))
     ls = [s for s in assigns_to(fn, 'local_sum') if isinstance(s, ast.Assign)]
     ll = [s for s in assigns_to(fn, 'local_len') if isinstance(s, ast.Assign)]
-    ok = len(ls) == 1 and u(ls[0].value) == 'np.sum(%s)' % params(fn)[0] and len(ll) == 1 and u(ll[0].value) == 'len(%s)' % params(fn)[0]
+    ok = len(ls) == 1 and u(ls[0].value) == C('np.sum(%s)' % params(fn)[0]) and len(ll) == 1 and u(ll[0].value) == 'len(%s)' % params(fn)[0]
     ck.check(ok, rule, mod, ls[0] if ls else fn, 'striped_array_mean', '%s ; %s' % (u(ls[0]) if ls else '?', u(ll[0]) if ll else '?'), 'local sum and local count of the same array', 'local_sum/local_len must be np.sum/len of the local array')
     fm = mod.func('striped_array_max')
     ck.analysed(mod, fm)
     gm = [s for s in walk_local(fm) if isinstance(s, ast.Assign) and isinstance(s.value, ast.Call) and collective_name(s.value) == 'allreduce']
     ok = len(gm) == 1 and u(gm[0].value.args[0]) == 'local_max' and u(kwarg(gm[0].value, 'op')) == 'mpi.mpi4py.MAX'
     lm = [s for s in assigns_to(fm, 'local_max') if isinstance(s, ast.Assign)]
-    ok = ok and len(lm) == 1 and u(lm[0].value) in ('%s.max()' % params(fm)[0], 'np.max(%s)' % params(fm)[0])
+    ok = ok and len(lm) == 1 and u(lm[0].value) in CS('%s.max()' % params(fm)[0], 'np.max(%s)' % params(fm)[0])
     r = returns_of(fm)
     ok = ok and len(r) == 1 and u(r[0].value) == u(gm[0].targets[0])
     ck.check(ok, rule, mod, gm[0] if gm else fm, 'striped_array_max', u(gm[0]) if gm else '?', 'global max = allreduce(local max, MAX)', 'the striped max must be allreduce(local_array.max(), op=MAX)')
